@@ -1,7 +1,8 @@
 (* C10: s2m lists each record's runs; m2s is its exact inversion; independent of the interleaving. *)
 From Coq Require Import NArith ZArith List.
 From KT Require Import Gen.Generated Gen.Alphabet Gen.FactsBase Gen.FactLetters Gen.FactTableMinimiser Model.Kmer Model.Ops Model.Rows Model.Pipeline.
-From KT Require Import Proof.ItemsSched Proof.ItemsTrace Proof.MinAbs Proof.MinSpec Proof.MinConc Proof.MinExt Proof.MinFast Proof.FileSpecProof.
+From KT Require Import Proof.ItemsSched Proof.ItemsTrace Proof.MinAbs Proof.MinSpec Proof.MinConc Proof.MinExt Proof.MinFast Proof.FileSpecProof Proof.Inversion.
+From Coq Require Import Sorting.Permutation.
 Import ListNotations.
 Open Scope N_scope.
 
@@ -51,6 +52,26 @@ Proof.
   split; [exact (s2m_model_spec w m H1 H2 Hw recs letters_ok D)|exact (m2s_model_spec w m H1 H2 Hw recs letters_ok D)].
 Qed.
 
+(* "m2s is the exact inversion of s2m", spelled out on the entry list both m2s outputs (model and specification) are
+   built from: an entry (minimiser, (record, start, end)) exists exactly when s2m lists that run for that record;
+   there is one line per distinct minimiser among the entries, no line is empty, and the lines together list every
+   entry exactly once (a permutation: nothing lost, nothing twice, nothing else) *)
+Theorem C10_m2s_entry_iff_s2m_run :
+  forall w m recs v i a b,
+  In (v, (i, a, b)) (m2s_entries (rec_runs_spec w m) recs) <->
+  exists s, nth_error recs i = Some s /\ In (v, a, b) (rec_runs_spec w m s).
+Proof. intros w m. exact (entry_iff (rec_runs_spec w m)). Qed.
+
+Theorem C10_m2s_lines_partition_the_entries :
+  forall w m recs,
+  let es := m2s_entries (rec_runs_spec w m) recs in
+  let keys := nodup N.eq_dec (map fst es) in
+  NoDup keys /\
+  (forall v, In v keys <-> exists e, In (v, e) es) /\
+  Permutation (concat (map (fun v => filter (fun e => N.eqb (fst e) v) es) keys)) es /\
+  (forall v, In v keys -> filter (fun e => N.eqb (fst e) v) es <> []).
+Proof. intros w m. exact (lines_partition_the_entries (rec_runs_spec w m)). Qed.
+
 Example C10_example :
   m_s2m 0 2 [[65;67;71;84]; [67]] = s_s2m 0 2 [[65;67;71;84]; [67]] /\ m_m2s 3 2 [[65;67;71;84;65]; [67;67;65;67]] = s_m2s 3 2 [[65;67;71;84;65]; [67;67;65;67]].
 Proof. vm_compute. split; reflexivity. Qed.
@@ -59,3 +80,5 @@ Print Assumptions C10_items_exact_every_interleaving.
 Print Assumptions C10_items_exact_for_the_real_steps.
 Print Assumptions C10_record_runs_are_spec_runs.
 Print Assumptions C10_outputs_are_the_specified_ones.
+Print Assumptions C10_m2s_entry_iff_s2m_run.
+Print Assumptions C10_m2s_lines_partition_the_entries.
